@@ -73,6 +73,11 @@ class Ctx:
         self.obligations += 1
         self.violations.append(Violation(rid, key, site, message, detail))
 
+    def bad_instance(self, rid: str, site: str, what: str):
+        """An instance that failed and is reported through an aggregated viol()."""
+        self.instances.setdefault(rid, []).append(dict(site=site, what=what, verdict="violation"))
+        self.obligations += 1
+
     def info(self, msg: str):
         self.infos.append(msg)
         self.lines.append(f"INFO {msg}")
